@@ -23,6 +23,7 @@ mod twin;
 mod vfs;
 mod wire;
 mod world;
+mod xproc;
 
 use plan::{Job, Plan, ReplayFile};
 use report::{Agg, FoundViolation, ShardReport};
@@ -484,6 +485,11 @@ fn main() {
         Some("worker") if args.len() >= 7 => worker(&args[1..]),
         Some("replay") if args.len() >= 2 => replay(&args[1]),
         Some("selftest") => selftest(&args[1..]),
+        // (internal) a server instance in another process: serve the one request on stdin
+        Some("xreq") => {
+            quiet_panics();
+            xproc::child_main()
+        }
         // (internal) open a data directory the way a freshly started server process does, read once, exit
         Some("first-open") if args.len() >= 2 => {
             use taskchampion_sync_server_core::Storage;
